@@ -3,6 +3,6 @@ import chainlib, chaintrace
 
 def run(tier):
     return chainlib.run_family("C02", tier, "Chain_core.cfg", "Chain_core_edges.cfg",
-                               {"quick": (2, 5), "thorough": (6, 6)}, deep=True,
+                               {"quick": (1, 5), "thorough": (5, 6)}, deep=True,
                                probes=[("Chain_ledger.cfg", ["LedgerIsFold"])], quick_paths=2500,
                                extra=chaintrace.leg_t("C02"))
